@@ -137,7 +137,17 @@ func pointerize(t, base reflect.Type, v reflect.Value) reflect.Value {
 		return v
 	}
 
+	depth := ptrDepth(t)
 	for t != v.Type() {
+		if ptrDepth(v.Type()) >= depth {
+			// as many pointer levels as t has: a named pointer type (type P *T) is
+			// reached by conversion, taking more addresses never gets there
+			if v.Type().ConvertibleTo(t) {
+				v = v.Convert(t)
+			}
+			break
+		}
+
 		if !v.CanAddr() {
 			tmp := reflect.New(v.Type())
 			tmp.Elem().Set(v)
@@ -147,6 +157,15 @@ func pointerize(t, base reflect.Type, v reflect.Value) reflect.Value {
 		}
 	}
 	return v
+}
+
+func ptrDepth(t reflect.Type) int {
+	n := 0
+	for t.Kind() == reflect.Ptr {
+		t = t.Elem()
+		n++
+	}
+	return n
 }
 
 func isInt(k reflect.Kind) bool {
